@@ -24,10 +24,11 @@ type mfile struct {
 
 // MFile is an open file handle of the model.
 type MFile struct {
-	path string
-	f    *mfile
-	off  int
-	fs   *mfs
+	path   string
+	f      *mfile
+	off    int
+	fs     *mfs
+	closed bool
 }
 
 type mfs struct {
@@ -103,10 +104,67 @@ func M_OpenFile(name string, flag int, perm os.FileMode) (*MFile, error) {
 	if f.dir && flag&(os.O_WRONLY|os.O_RDWR) != 0 {
 		return nil, perr("open", name, errors.New("is a directory"))
 	}
+	if flag&os.O_TRUNC != 0 && flag&(os.O_WRONLY|os.O_RDWR) != 0 {
+		f.data = nil
+	}
 	return &MFile{path: name, f: f, fs: FS}, nil
 }
 
+// The convenience functions of package os, in terms of the primitive steps above.
+func M_Create(name string) (*MFile, error) {
+	return M_OpenFile(name, os.O_RDWR|os.O_CREATE|os.O_TRUNC, 0666)
+}
+func M_Open(name string) (*MFile, error) { return M_OpenFile(name, os.O_RDONLY, 0) }
+func M_WriteFile(name string, data []byte, perm os.FileMode) error {
+	f, err := M_OpenFile(name, os.O_WRONLY|os.O_CREATE|os.O_TRUNC, perm)
+	if err != nil {
+		return err
+	}
+	_, err = f.Write(data)
+	if err1 := f.Close(); err1 != nil && err == nil {
+		err = err1
+	}
+	return err
+}
+func M_ReadFile(name string) ([]byte, error) {
+	f, err := M_OpenFile(name, os.O_RDONLY, 0)
+	if err != nil {
+		return nil, err
+	}
+	defer f.Close()
+	return io.ReadAll(f)
+}
+func M_MkdirAll(p string, perm os.FileMode) error {
+	p = filepath.Clean(p)
+	if d, ok := FS.files[p]; ok && d.dir {
+		return nil
+	}
+	if parent := filepath.Dir(p); parent != p {
+		if err := M_MkdirAll(parent, perm); err != nil {
+			return err
+		}
+	}
+	err := M_Mkdir(p, perm)
+	if M_IsExist(err) {
+		return nil
+	}
+	return err
+}
+
+func (h *MFile) Sync() error {
+	if h.closed {
+		return perr("sync", h.path, os.ErrClosed)
+	}
+	if err := h.fs.step("sync", h.path); err != nil {
+		return perr("sync", h.path, err)
+	}
+	return nil
+}
+
 func (h *MFile) Write(b []byte) (int, error) {
+	if h.closed {
+		return 0, perr("write", h.path, os.ErrClosed)
+	}
 	m := h.fs
 	if m.steps == m.crashAt && m.partial && len(b) > 1 && !m.dead {
 		// the process dies in the middle of this write: a prefix reaches the file
@@ -135,6 +193,10 @@ func (h *MFile) Read(b []byte) (int, error) {
 }
 
 func (h *MFile) Close() error {
+	if h.closed {
+		return perr("close", h.path, os.ErrClosed)
+	}
+	h.closed = true
 	if err := h.fs.step("close", h.path); err != nil {
 		return perr("close", h.path, err)
 	}
